@@ -130,3 +130,11 @@ def gating(vc):
         vc.check('non-idempotent/no-speculation', plan is None)
         vc.check('non-idempotent/default-plan-never-speculates', isinstance(ResponseFuture._spec_execution_plan, NoSpeculativeExecutionPlan)
                  and ResponseFuture._spec_execution_plan.next_execution(None) == -1)
+
+
+# The retry branch of ResponseFuture._set_result is chosen by the CLASS of the decoded error message (isinstance on ReadTimeoutErrorMessage,
+# WriteTimeoutErrorMessage, UnavailableErrorMessage, and Overloaded / IsBootstrapping / TruncateError / ServerError for on_request_error): its precondition is that
+# the wire code decodes to that class with the fields the policy is asked with.  Same contract as C04's ERROR harnesses, re-discharged for those codes.
+from contracts import c04_responses as _C04
+for _code in (0x0000, 0x1000, 0x1001, 0x1002, 0x1003, 0x1100, 0x1200):
+    _C04._mk_error(_code, prop='C16', label='decoded-')
